@@ -27,8 +27,9 @@ def csize (N M : Int) : Int := (M + 1) * (2 * N - M + 2) / 2
 /-- `coeff::Ssize(N, M)`: the `m = 0` column is not stored -/
 def ssize (N M : Int) : Int := csize N M - (N + 1)
 
-/-- the constructor test of `coeff(C, S, N, nmx, mmx)` ("Bad indices for coeff") -/
-def validDims (N nmx mmx : Int) : Bool := (N ≥ nmx && nmx ≥ mmx && mmx ≥ 0) || (nmx == -1 && mmx == -1)
+/-- the constructor tests of `coeff(C, S, N, nmx, mmx)`: "Bad indices for coeff" (since repair 3a5948e also `N ≥ −1` for the empty set) and
+    "Degree too large for coeff" (`N > 46339`: `index` would overflow an `int`) -/
+def validDims (N nmx mmx : Int) : Bool := ((N ≥ nmx && nmx ≥ mmx && mmx ≥ 0) || (N ≥ -1 && nmx == -1 && mmx == -1)) && N ≤ 46339
 
 /-- "Arrays too small in coeff" -/
 def arraysOk (N nmx mmx : Int) (clen slen : Int) : Bool :=
